@@ -82,7 +82,8 @@ def run_property(pid, plan, tier, seed, jobs, t0):
             regions[ob] = reg
     os.environ["VERIF_KF_REGIONS"] = json.dumps(regions)
     targets = plan["targets"]
-    reports = prun.run_targets(targets, timeout_ms=timeout_ms, jobs=jobs, group=plan.get("recursion_group"))
+    from pv import plans as _plans
+    reports = prun.run_targets(targets, timeout_ms=timeout_ms, jobs=jobs, group=plan.get("recursion_group"), slow=_plans.SLOW)
     # ---- verdict
     n_obl = n_ok = 0
     refuted, unknown, errors = [], [], []
